@@ -3,7 +3,7 @@
    [range n] = 0..n-1; [lex counts] = all index combinations in lexicographic order of the (sorted) names;
    [bind_idx idx ec] binds $repeat:<name> for every (name, index) of idx. *)
 From Coq Require Import String Ascii List ZArith.
-From Bkl Require Import Model.Value Model.Merge Model.Eval Proofs.RepeatProofs Proofs.NestedRepeatProofs.
+From Bkl Require Import Model.Value Model.Merge Model.Eval Proofs.RepeatProofs Proofs.YamlProofs Proofs.NestedRepeatProofs.
 Import ListNotations.
 Local Open Scope string_scope.
 Local Open Scope list_scope.
@@ -66,12 +66,36 @@ Theorem C12_list_entry_bad_count : forall o S di f ec vm r,
 Proof. exact entry_bad_count. Qed.
 Print Assumptions C12_list_entry_bad_count.
 
+(* ---- $repeat in a map value: the first pass over a map's entries (repeat_pass = fold of repeat_step) ---- *)
+(* the entry  k: {$repeat: n, ...body}  stands for the copies i = 0..n-1: (key evaluated with $repeat = i, body evaluated
+   with $repeat = i), a null body contributing nothing; later copies override earlier ones under the same evaluated key,
+   and all of them override what the map held under those keys *)
+Theorem C12_map_entry_repeat : forall o S di f ec a k vm n,
+  lookup "$repeat" vm = Some (VInt n) ->
+  repeat_step o S di f ec (Ok a) (k, VMap vm) =
+    do ps <- map_res (map_copy o S di f ec k (VMap (remove "$repeat" vm))) (range n);
+    Ok (fold_left ins (fold_left ins (concat ps) []) a).
+Proof. exact repeat_step_entry. Qed.
+Print Assumptions C12_map_entry_repeat.
+
+Theorem C12_map_entry_other : forall o S di f ec a k v,
+  (forall vm, v = VMap vm -> lookup "$repeat" vm = None) -> repeat_step o S di f ec (Ok a) (k, v) = Ok (insert k v a).
+Proof. exact repeat_step_other. Qed.
+Print Assumptions C12_map_entry_other.
+
 (* the statements are about something: [1, {$repeat: 3, v: $repeat}, 2] with no oracle used *)
 Example C12_list_example :
   let o := {| o_env := []; o_yaml := fun _ => Err EOracle; o_enc := fun _ _ => Err EOracle; o_dec := fun _ _ => Err EOracle;
               o_fmt := fun _ => false; o_sha := fun _ => Err EOracle; o_lower := fun _ => false |} in
   p2 o [] 0 10 [] (VList [VInt 1; VMap [("$repeat", VInt 3); ("v", VStr "$repeat")]; VInt 2])
   = Ok (VList [VInt 1; VMap [("v", VInt 0)]; VMap [("v", VInt 1)]; VMap [("v", VInt 2)]; VInt 2]).
+Proof. vm_compute. reflexivity. Qed.
+
+Example C12_map_example :
+  let o := {| o_env := []; o_yaml := fun _ => Err EOracle; o_enc := fun _ _ => Err EOracle; o_dec := fun _ _ => Err EOracle;
+              o_fmt := fun _ => false; o_sha := fun _ => Err EOracle; o_lower := fun _ => false |} in
+  p2 o [] 0 10 [] (VMap [("$""p{$repeat}""", VMap [("$repeat", VInt 2); ("v", VStr "$repeat")]); ("z", VInt 9)])
+  = Ok (VMap [("p0", VMap [("v", VInt 0)]); ("p1", VMap [("v", VInt 1)]); ("z", VInt 9)]).
 Proof. vm_compute. reflexivity. Qed.
 
 Example C12_lex_example : lex [("x", 2%Z); ("y", 2%Z)] =
